@@ -16,6 +16,7 @@ import Ztr.Model.Discovery
 import Ztr.Model.Streams
 import Ztr.Model.Ordered
 import Ztr.Model.Options
+import Ztr.Model.Handover
 /-!
 Line protocol between the Python harness and the executable model: one JSON object per line in,
 one JSON object per line out.  `op` selects the model component.  Unknown or malformed requests are
@@ -99,6 +100,35 @@ def opCliFilters (j : Json) : Except String Json := do
                                    legacyModule := ← optN "legacyModule", legacyTest := ← optN "legacyTest" }
   let f := Ztr.Options.filters 0 r
   return Json.mkObj [("module", jNats f.1), ("test", jNats f.2)]
+
+/-- `handover`: words are numbers: 0 = '--resume-layer', 1 = '--default', 1000+n = str(n), anything else an
+ordinary word.  mode "compose": what `spawn_layer_in_subprocess` puts behind the script; mode "configure": what
+`Runner.configure` hands to `get_options`. -/
+def handoverToks : Ztr.Handover.Toks Nat :=
+  { resume := 0, dflt := 1, showNum := fun n => 1000 + n,
+    parseNum := fun s => if s ≥ 1000 then some (s - 1000) else none }
+
+def opHandover (j : Json) : Except String Json := do
+  let optN (k : String) : Except String (Option Nat) := do
+    match j.getObjVal? k with
+    | .ok Json.null => return none
+    | .ok v => return some (← v.getNat?)
+    | .error _ => return none
+  let mode ← J.str! j "mode"
+  match mode with
+  | "compose" =>
+    let tail := Ztr.Handover.childTail handoverToks (← J.nat! j "name") (← J.nat! j "num") (← J.nats! j "defaults")
+      (← optN "seed") (← J.nats! j "user")
+    return Json.mkObj [("tail", jNats tail)]
+  | "configure" =>
+    match Ztr.Handover.configure handoverToks (← J.nats! j "given") (← J.nats! j "args") with
+    | none => return Json.mkObj [("raises", Json.bool true)]
+    | some c =>
+      let res : Json := match c.resume with
+        | none => Json.null
+        | some (n, k) => Json.arr #[(n : Json), (k : Json)]
+      return Json.mkObj [("raises", Json.bool false), ("resume", res), ("defaults", jNats c.defaults), ("args", jNats c.args)]
+  | _ => throw "handover: unknown mode"
 
 /-- `shuffle`: Shuffle.global_setup on `layers` = [[name code points, [test ids]], …] with the index
 stream `js`; also the seed hand-over. -/
@@ -617,6 +647,7 @@ def dispatch (j : Json) : Except String Json := do
   | "streams" => opStreams j
   | "ordered_layers" => opOrderedLayers j
   | "cli_filters" => opCliFilters j
+  | "handover" => opHandover j
   | _ => throw s!"unknown op {op}"
 
 partial def loop (h : IO.FS.Stream) (out : IO.FS.Stream) : IO Unit := do
